@@ -992,7 +992,15 @@ func SchedOracle(c *SchedCase, obs *SchedObs) []SchedFinding {
 	}
 	// --- termination
 	if obs.TimedOut || obs.WallMs > obs.BoundMs {
-		if c.KeepGoing && hasCmdFail && hasCycle {
+		undefElsewhere := false
+		for _, k := range c.Broken {
+			undefElsewhere = undefElsewhere || k == "subrepo-elsewhere-undefined"
+		}
+		if undefElsewhere && c.Threads == 1 {
+			// found by the subrepo shapes on the unchanged tree: with -n 1 the subinclude of a target of a subrepo that the
+			// package expected to define it does not define never returns; everything else is built and plz then sits there
+			add("C05", "undefined-subrepo-subinclude-hangs-with-one-thread", "with -n 1 a BUILD file that subincludes a target of a subrepo which its defining package does not define: plz did not terminate within %d ms (wall %d ms)", obs.BoundMs, obs.WallMs)
+		} else if c.KeepGoing && hasCmdFail && hasCycle {
 			add("C05", "keep-going-failure-disables-cycle-check", "with --keep_going, a failed command and a dependency cycle plz did not terminate within %d ms", obs.BoundMs)
 		} else {
 			add("C05", "build-did-not-terminate", "plz did not terminate within %d ms (wall %d ms, killed=%v)", obs.BoundMs, obs.WallMs, obs.TimedOut)
@@ -1207,7 +1215,12 @@ func RunSchedProperty(c *lib.Ctx, prop string) {
 				skipModel = true
 			}
 		}
-		if o.TimedOut {
+		if sc.Kind == "subrepoorder" && o.SubrepoMsg != 0 {
+			// plz reports the error against the subincluded label (///p/sr//:defs), not against the label whose parse task was
+			// evaluating the BUILD file, so the hint trace validation needs for a failing package is not observable: the run is
+			// checked by the oracle and by the CSub case below only
+			skipModel = true
+		} else if o.TimedOut {
 			skipModel = true // the oracle has reported it; there is no terminated run to replay
 		} else if !o.TraceOK {
 			c.Note("case %d (%s): trace file incomplete (plz exited through log.Fatalf); model case not emitted; stderr: %.300s", i, sc.Kind, o.Stderr)
